@@ -12,6 +12,9 @@ def make_wl(rng, k):
     if k is not None and k % 4 == 1:
         spec["n_exp"] = 2
         opts["threads_hint"] = 1
+        # killed while the transcript models of the second or a later chromosome are written, then resumed
+        opts["force_fault"] = {"kind": "kill", "stage": "construct", "frac": [0.45, 0.6, 0.75, 0.9][(k // 4) % 4], "phase": "after"}
+        spec["n_chr"] = max(3, spec.get("n_chr", 3))
     if k is not None and k % 4 == 2:
         spec["pre_ids"] = 1
     spec["novel_gene_overlap"] = rng.choice([1, 2])
